@@ -5,6 +5,7 @@
 -/
 import DEngine.Model.Proto
 import DEngine.Model.Cluster
+import DEngine.Model.ClusterHeal
 namespace DEngine.Cluster
 open DEngine.Proto
 
@@ -31,15 +32,23 @@ def parseEvent (s : String) : Event :=
   | some "up", some n, _ => .start n
   | _, _, _ => .nop
 
+/-- a schedule item: a primitive event, or `h:K` = K heal rounds (C32) -/
+def parseItem (s : String) : Event ⊕ Nat :=
+  match s.splitOn ":" with
+  | ["h", k] => match k.toNat? with
+    | some k => .inr k
+    | none => .inl .nop
+  | _ => .inl (parseEvent s)
+
 /-- `n=3 cap=2|ev;ev;...` -/
-def parseCase (line : String) : Option (Nat × Nat × List Event) :=
+def parseCase (line : String) : Option (Nat × Nat × List (Event ⊕ Nat)) :=
   match line.splitOn "|" with
   | [head, evs] => do
     let fs := fields head
     let n ← natField fs "n"
     let cap ← natField fs "cap"
     if !(n == 3 || n == 5) || cap == 0 then none
-    else pure (n, cap, ((evs.splitOn ";").filter (fun s => !s.isEmpty)).map parseEvent)
+    else pure (n, cap, ((evs.splitOn ";").filter (fun s => !s.isEmpty)).map parseItem)
   | _ => none
 
 -- ------------------------------------------------------------------------------------------ printing
@@ -88,11 +97,15 @@ def showState (c : Cluster) (fromMsg fromAck : Nat) : String :=
   if newAcks.isEmpty then s else s ++ "!" ++ "+".intercalate (newAcks.map fun a => showPayload a.1.payload)
 
 /-- all states + branch tags of a schedule -/
-def runTrace (c : Cluster) : List Event → List String → List String → Cluster × List String × List String
+def runTrace (c : Cluster) : List (Event ⊕ Nat) → List String → List String → Cluster × List String × List String
   | [], states, tags => (c, states.reverse, tags)
-  | e :: es, states, tags =>
+  | .inl e :: es, states, tags =>
     let (c', t) := step c e
     runTrace c' es (showState c' c.nextMsg c.acked.length :: states) (t ++ tags)
+  | .inr k :: es, states, tags =>
+    let c' := heal k 0 c
+    runTrace c' es (showState c' c.nextMsg c.acked.length :: states)
+      ((if recovered c' then "heal:recovered" else "heal:not-recovered") :: tags)
 
 def dedup (l : List String) : List String := l.foldl (fun acc x => if acc.contains x then acc else acc ++ [x]) []
 
@@ -113,6 +126,7 @@ structure ObsNode where
   term : Nat
   commit : Nat
   log : Log
+  peers : List (Nat × Nat × Nat) := []      -- leader only: (peer, next_index, match_index)
 deriving Repr
 
 def parseEntry (s : String) : Option Entry :=
@@ -129,10 +143,15 @@ def parseLog (s : String) : Option Log :=
 
 def parseObsNode (s : String) : Option ObsNode :=
   match s.splitOn "," with
-  | ["D"] => some ⟨false, false, "D", 0, 0, []⟩
-  | ["E", t] => do pure ⟨true, false, "E", ← t.toNat?, 0, []⟩
-  | role :: t :: _vote :: c :: lg :: _ => do
-    pure ⟨true, true, role, ← t.toNat?, ← c.toNat?, ← parseLog lg⟩
+  | ["D"] => some ⟨false, false, "D", 0, 0, [], []⟩
+  | ["E", t] => do pure ⟨true, false, "E", ← t.toNat?, 0, [], []⟩
+  | role :: t :: _vote :: c :: lg :: rest => do
+    let peers := match rest with
+      | [ps] => (ps.splitOn "+").filterMap fun p => match p.splitOn "." with
+          | [a, b, c] => do pure (← a.toNat?, ← b.toNat?, ← c.toNat?)
+          | _ => none
+      | _ => []
+    pure ⟨true, true, role, ← t.toNat?, ← c.toNat?, ← parseLog lg, peers⟩
   | _ => none
 
 def parseObsState (s : String) : Option (List ObsNode) :=
@@ -347,6 +366,54 @@ def monitorC10 (case out : String) : String :=
       match c05Run init evl states (parseAeMsgs out) (some ((out.splitOn "|").map parseAcks)) with
       | .ok s => if s.committed.isEmpty then "skip" else "ok"
       | .error sig => "bad " ++ sig
+  | none, _ => "bad unparsable-trace"
+  | _, _ => "skip"
+
+-- ------------------------------------------------------------------------------------------ C32 monitor
+/-- rounds granted for recovery: elections (2n+6) + twice the catch-up distance ((longest log before the heal + 1) / cap, rounded up) -/
+def healBound (n cap longest : Nat) : Nat := 2 * n + 6 + 2 * ((longest + cap) / cap)
+
+/-- the recovered predicate (`recovered` of Model/ClusterHeal.lean) on an observed state -/
+def obsRecovered (st : List ObsNode) : Bool :=
+  let leaders := st.filter fun nd => nd.visible && nd.role == "L"
+  match leaders.foldl (fun best nd => match best with
+      | none => some nd
+      | some b => if nd.term > b.term then some nd else some b) (none : Option ObsNode) with
+  | some l => l.commit == lastIndex l.log &&
+      st.all fun nd => !nd.up || (nd.visible && nd.log == l.log && nd.term == l.term)
+  | none => false
+
+/-- a follower that is up holds less than what the leader believes it has matched: `update_next_index` never goes
+    below match_index+1, so the leader can never send it a request it accepts -/
+def obsStuckBehindMatch (st : List ObsNode) : Bool :=
+  st.any fun l => l.visible && l.role == "L" &&
+    l.peers.any fun p => match st[p.1 - 1]? with
+      | some f => f.visible && f.role != "L" && f.term == l.term && lastIndex f.log < p.2.2
+      | none => false
+
+/-- C32 on the implementation's trace: after `h:K` with K >= 2n+4 fair rounds and a majority of nodes up, the cluster
+    has recovered (a leader, every live node has its log, everything committed).  `skip` without such an event. -/
+def monitorC32 (case out : String) : String :=
+  match parseImplTrace out, case.splitOn "|" with
+  | some states, [_, evs] =>
+    let evl := (evs.splitOn ";").filter (fun s => !s.isEmpty)
+    let n := (states.head?.map List.length).getD 0
+    let cap := (natField (fields ((case.splitOn "|").headD "")) "cap").getD 1
+    let verdicts := ((evl.zip states).zipIdx).filterMap fun ((ev, st), idx) =>
+      match ev.splitOn ":" with
+      | ["h", k] => match k.toNat? with
+        | some k =>
+          let before := if idx == 0 then [] else (states[idx - 1]?).getD []
+          let longest := (before.map fun nd => nd.log.length).foldl max 0
+          if k ≥ healBound n cap longest && (st.filter (·.up)).length * 2 > n then
+            some (if obsRecovered st then "ok"
+                  else if obsStuckBehindMatch st then "bad stuck-behind-match-floor" else "bad not-recovered")
+          else none
+        | none => none
+      | _ => none
+    match verdicts.find? (· != "ok") with
+    | some v => v
+    | none => if verdicts.isEmpty then "skip" else "ok"
   | none, _ => "bad unparsable-trace"
   | _, _ => "skip"
 
